@@ -483,6 +483,24 @@ fn gen_c16_sequences(ctx: &mut Ctx, rng: &mut Rng) {
             ctx.monitor(res == wanted, "C16-serial-exchange", &line, &format!("wanted [{}] got [{}]", &wanted[..wanted.len().min(300)], &res[..res.len().min(300)]));
         }
     }
+    // the same offset and length again and again with other contents (a caller refilling one buffer), also back to earlier
+    // contents and with other messages in between: each time the bytes written are those of the message given
+    for (k, len) in [1usize, 2, 16, 17, 255].into_iter().enumerate() {
+        let blocks: Vec<Vec<u8>> = (0..3u8).map(|j| (0..len).map(|i| (i as u8).wrapping_mul(7).wrapping_add(j * 0x55 + k as u8)).collect()).collect();
+        for off in [0u16, 16, 0xFFF0] {
+            let order: Vec<usize> = vec![0, 1, 1, 0, 2, 0];
+            let mut msgs: Vec<String> = order.iter().map(|j| format!("SD.{}.{}", off, hex_of_bytes(&blocks[*j]))).collect();
+            msgs.insert(4, "DC.1".to_string());
+            let line = format!("SBS {} {} - /", msgs.len(), msgs.join(" "));
+            let res = ctx.case(line.clone(), true, "one-buffer-refilled");
+            let mut out: Vec<u8> = vec![];
+            for m in &msgs {
+                out.extend(enc_msg(m));
+            }
+            let wanted = format!("{} | {} | -", vec!["OK N"; msgs.len()].join(" ; "), hex_of_bytes(&out));
+            ctx.monitor(res == wanted, "C16-serial-exchange", &line[..line.len().min(300)], &format!("wanted [{}] got [{}]", &wanted[..wanted.len().min(200)], &res[..res.len().min(200)]));
+        }
+    }
     // a reply that trickles in: every byte arrives well inside the port's read timeout, the whole line takes more than the
     // 5 s the port was given (15 bytes at 400 ms); it is still the reply.  (6 s of real time: left out where FDX_SKIP_SLOW.)
     if std::env::var("FDX_SKIP_SLOW").is_err() {
